@@ -202,6 +202,9 @@ def main():
         sys.exit(rc)
     conf = PROPS[pid]
     t0 = time.time()
+    global BUILD
+    BUILD = os.path.join(BUILD, pid)   # per-property build directory: checks may run concurrently
+    shutil.rmtree(BUILD, ignore_errors=True)
     os.makedirs(BUILD, exist_ok=True)
     baseline = load_json(BASELINE, {})
     known = load_json(KNOWN, {"findings": []})
